@@ -99,15 +99,35 @@ contract(
 )
 
 # freshness information
+def _uptodate_callable(ex, name):
+    """Template.uptodate: returns a bool - or, when a sync check meets an async loader's callable, an awaitable (any non-bool object)."""
+    def call(e, a, k):
+        isb = e.sym("uptodate_returns_bool", "bool")
+        if e.decide(isb.t):
+            return e.sym("uptodate_result", "bool")
+        o = e.sym("uptodate_awaitable", "any")
+        from pyvc.intrinsics import F_any_truth
+        e.assume(F_any_truth(o.t))          # e.g. a coroutine object: truthy
+        e.assume(z3.Not(z3.Function("isinstance_bool", ObjSort, BoolSort)(o.t)))
+        return o
+    return PyCallable(call, "uptodate")
+
+
 contract(
     "liquid2.template:Template.is_up_to_date",
     props=["C14"],
-    params={"self": Rec("Template", _module="liquid2.template", uptodate=Union(NoneT, Opaque(lambda ex, name: PyCallable(lambda e, a, k: e.sym("uptodate_result", "bool"), "uptodate"), "callable")))},
+    params={"self": Rec("Template", _module="liquid2.template", uptodate=Union(NoneT, Opaque(_uptodate_callable, "callable")))},
     post=["implies(self.uptodate is None, result == True)",
-          "implies(self.uptodate is not None, result == uptodate_result())"],
-    partial_domain="the uptodate callable returns a bool (the `return False` for a non-bool answer is outside this domain)",
+          "implies(self.uptodate is not None and uptodate_returns_bool(), result == uptodate_result())",
+          # anything that is not a bool answer (an un-awaited coroutine of an async loader) means "not known to be fresh": reload
+          "implies(self.uptodate is not None and not uptodate_returns_bool(), result == False)"],
     raises={},
 )
+
+
+@spec("uptodate_returns_bool", None)
+def _urb(ex):
+    return ex.sym("uptodate_returns_bool", "bool")
 
 
 @spec("uptodate_result", None)
